@@ -611,10 +611,22 @@ def apply(acc, codec, value, nontrivial=False, count=True):
     except HarnessError:
         raise
     except CaseTimeout as e:
-        # every codec call here takes micro- to milliseconds; 20 s without an answer is non-termination
-        acc.fail(codec, "no-result-within-20s", str(e), {"codec": codec, "value": value}, innermost_frame(e))
-        _TIMED_OUT.add(codec)
-        return False
+        # Every codec call here takes micro- to milliseconds, but on a loaded machine a worker can be
+        # descheduled (or a lazy module import can stall) for longer than 20 s of wall clock: the case is
+        # re-run under a 600 s limit and only a second silence is reported as non-termination.
+        acc.label("timeout-20s-retried")
+        try:
+            with time_limit(600):
+                r = CHECKS[codec](value)
+        except HarnessError:
+            raise
+        except CaseTimeout as e2:
+            acc.fail(codec, "no-result-within-600s", str(e2), {"codec": codec, "value": value}, innermost_frame(e2))
+            _TIMED_OUT.add(codec)
+            return False
+        except Exception as e2:
+            acc.fail(codec, type(e2).__name__, "%s: %s" % (type(e2).__name__, e2), {"codec": codec, "value": value}, innermost_frame(e2))
+            return False
     except Exception as e:
         acc.fail(codec, type(e).__name__, "%s: %s" % (type(e).__name__, e), {"codec": codec, "value": value}, innermost_frame(e))
         return False
